@@ -360,15 +360,15 @@ def rel3(ctx, c):
         lo_t, hi_t = m.group(1), m.group(2)
         rel_var = None
         for t in (lo_t, hi_t):
-            mm = re.fullmatch(r"(\w+)( \+ 1)?", t)
+            mm = re.fullmatch(r"(\w+)( [+-] \d+)?", t)
             if mm and mm.group(1) != this_name:
                 rel_var = mm.group(1)
         backward = lo_t.startswith(rel_var or "\0")
         direction = "backward" if backward else "forward"
         # window as offsets relative to (this, rel)
         def off(t, base):
-            mm = re.fullmatch(r"%s(?: \+ (\d+))?" % re.escape(base), t)
-            return int(mm.group(1) or 0) if mm else None
+            mm = re.fullmatch(r"%s(?: ([+-]) (\d+))?" % re.escape(base), t)
+            return (int(mm.group(2) or 0) * (-1 if mm.group(1) == "-" else 1)) if mm else None
         if backward:
             w_lo, w_hi = off(lo_t, rel_var), off(hi_t, this_name)      # [rel + w_lo, this + w_hi)
         else:
